@@ -19,7 +19,7 @@ PRED_SIG = {
     "P01": ("GHHV", 0),
     "P07": ("TTT", 0),
     "P06": ("GHTT", 0), "P06S": ("T", 0), "P04": ("GHT", 0), "P05": ("GHTV", 0), "J05": ("GHTV", 0), "P09": ("GHTV", 0), "P02": ("T", 0), "P03": ("GT", 0),
-    "W08": ("", 0), "P15": ("", 0), "P17": ("", 0), "P16": ("", 0), "P17D": ("", 0), "P18": ("GGTTUE", 0), "P18D": ("GGTTUE", 0), "P18F": ("G", 0),
+    "W08": ("", 0), "P15": ("", 0), "P17": ("", 0), "P16": ("", 0), "P13": ("", 0), "P13V": ("", 0), "P17D": ("", 0), "P18": ("GGTTUE", 0), "P18D": ("GGTTUE", 0), "P18F": ("G", 0),
 }
 for k, v in PRED_SIG.items(): corr.OPSIG[k] = v
 
@@ -526,6 +526,79 @@ PROPS["C16"] = dict(
     n=dict(quick=(12, 40), thorough=(150, 400)),
     assumptions=["model = hand-written Gallina mirror of algorithms/average.h (four routines as loops on the iteration budget, the stopping tests, the distinct use of the eps argument and Constants::eps); tied to /repo by exact comparison over the rational scalar for 0..3 points and 0..2 iterations (exact rationals grow with every iteration)",
                  "proved over the reals: the theorems of Properties_C16.v; convergence within the budget, order-independence, right-equivariance and the Frechet / weighted variants beyond empty and single inputs are evaluated on the implementation in double (clouds of 0..20 points within radius 0.01..0.25 of a centre, tolerance 1e-6)"],
+)
+
+
+def valid_ctor(g, gn):
+    """a Ctor case whose data is valid (unit complex number / quaternion / axis): used by the accessor predicates"""
+    for _ in range(200):
+        c = gen2.gen_ctor(g, gn)
+        if c["iarg"] >= 10: continue
+        ok = True
+        for a in c["args"]:
+            if len(a) == 4 and gn != "SE2" and abs(sum(x * x for x in a) - 1) != 0 and c["iarg"] == 0 and not gn.startswith("R"): ok = False
+        if gn == "SO2" and c["iarg"] == 0 and sum(x * x for x in c["args"][0]) != 1: ok = False
+        if gn == "SE2" and c["iarg"] == 1 and sum(x * x for x in c["args"][0][2:]) != 1: ok = False
+        if not gn.startswith("R") and gn not in ("SO2", "SE2") and c["iarg"] == 1:
+            ax = c["args"][1 if gn == "SO3" else 2]
+            if sum(x * x for x in ax) != 1: ok = False
+        if ok:
+            d = dict(c); d["op"] = "P13"; d["mask"] = "-"; return d
+    raise RuntimeError("no valid constructor case")
+
+def gen_p13v(epsq):
+    def f(g, gn):
+        gd = corr.group(gn)
+        X = corr.gen_elem(g, gd, True)
+        fac = g.r.choice([Fr(0), Fr(1, 2), Fr(-1, 2), Fr(9, 10), Fr(-9, 10), Fr(11, 10), Fr(-11, 10), Fr(2), Fr(-2), Fr(1000), Fr(-1000)])
+        g.note("p13v_factor:%s" % fs(fac))
+        return dict(group=gn, op="P13V", mask="-", iarg=0, flt=0, args=[X, [1 + fac * epsq], rot_slot(gd), [epsq]])
+    return f
+
+def c13_asserts(pid, P, tier, seed, log):
+    """assertion-enabled builds (the baseline suite is built with NDEBUG): the constructors / setters against the model with the
+    assertion flag on (exact), and the acceptance threshold on the double and float builds"""
+    g = mkgen(pid, seed, 13); n = 12 if tier != "thorough" else 120
+    raw = []; cov = {}
+    cases = [gen2.gen_ctor(g, gn, asserts=True) for gn in P["groups"] for _ in range(n)]
+    res, be = corr.run_cases(cases, ndebug=False)
+    summ, dis = corr.summarize(res)
+    for n_, lg in be.items():
+        raw.append(("build", dict(binary=n_), "harness %s does not build against the current tree: %s" % (n_, lg[-400:]), dict(binary=n_, log=lg[-3000:]), False))
+    for d_ in dis[:5]:
+        c = d_["case"]
+        raw.append(("corr", dict(group=c["group"], op="Ctor", build="assert", _args=c["args"]),
+                    "%s constructor %d in the assertion-enabled build: implementation %s / model %s" % (c["group"], c["iarg"], d_["impl"][:80], d_["model"][:80]),
+                    dict(kind="correspondence", names="Ctor.v (checked) vs the class constructors, assertion-enabled build", case=corr.case_json(c), ndebug=False, impl=d_["impl"][:2000], model=d_["model"][:2000]), True))
+    cov["assert_build_ctor_cases"] = len(cases); cov["assert_build_ctor_disagreements"] = len(dis); cov["assert_build_exceptions"] = summ["exceptions"]
+    nv = 0
+    for sc, epsq in (("q", EPS_D), ("d", EPS_D), ("f", Fr(100, 2 ** 23))):
+        for ndebug in (False, True):
+            vc = [gen_p13v(epsq)(g, gn) for gn in P["groups"] for _ in range(n)]
+            r2, be2 = corr.run_cases(vc, ndebug=ndebug, scalar=sc, model=False)
+            for r in r2:
+                if r["impl"] == "build_failed": continue
+                outs = vcheck.parse_outs(r["impl"]); c = r["case"]; nv += 1
+                bad = [("exception", r["impl"][:80])] if outs is None else [(nm, "%s vs %s" % (fs(outs[2 * k][0]), fs(outs[2 * k + 1][0]))) for k, nm in enumerate(["rejected exactly when | |rotation data| - 1 | >= eps (never with NDEBUG)", "normalize() makes the data acceptable"]) if outs[2 * k] != outs[2 * k + 1]]
+                for nm, why in bad:
+                    raw.append(("pred", dict(group=c["group"], pred="P13V", scalar=sc, pair=nm, build="NDEBUG" if ndebug else "assert", _args=c["args"]),
+                                "%s: %s fails over %s (%s build): %s" % (c["group"], nm, sc, "NDEBUG" if ndebug else "assertion-enabled", why),
+                                dict(kind="predicate", scalar=sc, ndebug=ndebug, pair=nm, case=corr.case_json(c), result=r["impl"][:300]), True))
+    cov["validation_evaluations"] = nv
+    log("assertion-enabled builds: %d constructor cases (%d disagreements), %d validation evaluations, %d failures" % (len(cases), len(dis), nv, len(raw)))
+    return raw, cov
+
+PROPS["C13"] = dict(
+    vfiles=["Properties_C13.v"], level="proof",
+    groups=BASE_GROUPS,
+    corr_ops=["Ctor", "Cast", "Normalize", "Rotation", "Translation", "Transform"],
+    preds=[dict(op="P13", pairs=["rotation() orthonormal", "det rotation() = 1", "rotation() is the supplied rotation", "translation() / velocity / time are the supplied ones",
+                                 "transform() carries rotation()", "raw coefficients fed back", "quat()/angle() + translation fed back reproduce the element", "cast<float>() and back"],
+                exact=[5], qtol=1e-5, dtol=1e-6, dscale=lambda c: (1 + maxabs(c)) ** 2, gen=valid_ctor)],
+    extra=[c13_asserts],
+    n=dict(quick=(25, 30), thorough=(300, 400)),
+    assumptions=["model = hand-written Gallina mirror of the constructors / setters of SO2.h .. SGal3.h, Rn.h (Ctor.v: delegation to the coefficient-vector constructor and its MANIF_ASSERT, AngleAxis -> Quaternion, AngleAxis products, Quaternion(Matrix3), Rotation2D(M).angle()), of the accessors and of cast; tied to /repo by exact comparison over the rational scalar in BOTH build modes (NDEBUG and assertion-enabled)",
+                 "theorems are over Coq's classical reals; Quaternion(Matrix3) and the SE_2(3) / SGal(3) accessors are covered by the correspondence and by the accessor predicate P13 on the implementation (exact with tolerance 1e-5 for oracle square roots, double 1e-6), the precision of cast<float> by P13 only"],
 )
 
 # ------------------------------------------------------------------ generic engine
